@@ -10,7 +10,7 @@ parent, bond order, direction mark on the bond to the parent, chirality label) a
   * the fragment texts for the cut (own `$label` per cut; a cut double bond is written `=[$L]` / `[$L]=`; a direction mark
     on a cut single bond is written on both sides, `P/[$L]` and `[$L]/C`, as in the repo's own test).
 check_case resolves the uncut molecule and the cut molecule under EVERY order of the fragments in the base graph
-(all permutations up to 4 fragments; base graph passed to `from_graph` with keys 0..k-1 in that order, and written as
+(all permutations, up to 4 fragments for the enumerated cut sets and up to 5 / 6 (quick / thorough) for isolated centres; base graph passed to `from_graph` with keys 0..k-1 in that order, and written as
 a string for the order a string can express) and checks on each returned molecule:
   (a) it is the constructed molecule (heavy atoms, elements, bond orders) - otherwise nothing can be said;
   (b) every 'chiral' attribute sits on the atom it was written on and carries its label, no other atom has one
@@ -69,13 +69,18 @@ MOLS = dict(gr.STEREO_MOLS)
 MOLS.update(EXTRA_MOLS)
 
 BOUNDS = {
-    'quick': {'molecules': len(gr.STEREO_MOLS), 'heavy_atoms': '4..8', 'stereo_double_bonds': '0..2', 'stereocentres': '0..2',
-              'cuts': 'every admissible set of <= 2 cut bonds', 'fragment_orders': 'all permutations (<= 6)', 'constructors': ['from_graph', 'from_string']},
-    'thorough': {'molecules': len(gr.STEREO_MOLS), 'heavy_atoms': '4..8', 'stereo_double_bonds': '0..2', 'stereocentres': '0..2',
-                 'cuts': 'every admissible set of <= 3 cut bonds', 'fragment_orders': 'all permutations (<= 24)', 'constructors': ['from_graph', 'from_string']},
+    'quick': {'molecules': len(MOLS), 'heavy_atoms': '4..9', 'stereo_double_bonds': '0..2', 'stereocentres': '0..2',
+              'cuts': 'every admissible set of <= 2 cut bonds; for every labelled centre the set of ALL its bonds (3 or 4 cuts), alone and with one of '
+                      'the first two other bonds (<= 4 cuts in total)',
+              'fragment_orders': 'all permutations (<= 6; <= 120 for the isolated centres)', 'constructors': ['from_graph', 'from_string']},
+    'thorough': {'molecules': len(MOLS), 'heavy_atoms': '4..9', 'stereo_double_bonds': '0..2', 'stereocentres': '0..2',
+                 'cuts': 'every admissible set of <= 3 cut bonds; for every labelled centre the set of ALL its bonds, alone and with each other bond '
+                         '(<= 5 cuts in total)',
+                 'fragment_orders': 'all permutations (<= 24; <= 720 for the isolated centres)', 'constructors': ['from_graph', 'from_string']},
 }
 EXHAUSTIVE = {'quick': True, 'thorough': True}
-RULE = ('fixed molecule list x every admissible cut set up to the stated size x every fragment order; nothing is random; a case is '
+RULE = ('fixed molecule list x every admissible cut set up to the stated size (+ the cut sets that isolate a labelled centre as a one-atom '
+        'fragment) x every fragment order; nothing is random; a case is '
         'non-trivial when it has at least one cut and the molecule has a marked double bond or a labelled centre (all listed molecules do); '
         'distinct = (molecule, cut set)')
 ASSUMPTIONS = ['OpenSMILES reading of / and \\ (encoded in gen.gr_resolver_inputs.stereo_expected, cross-checked on the uncut molecule of every case)',
